@@ -110,6 +110,14 @@ func generalPlan(tier string, faults bool) []PlanItem {
 		items = append(items, PlanItem{scnStop("stop/"+stopName(sv)+"-K1", K1, sv, "A", "B"), d})
 		items = append(items, PlanItem{scnRestart("restart/"+stopName(sv)+"-K1", K1, sv), d})
 	}
+	// reply latency (the store applies an operation now, the reply arrives up to H/2 later)
+	// around the interesting instant of three base scenarios
+	{
+		f := scnFailoverDel("failover-del2-K1", K1, "A", "B")
+		items = append(items, PlanItem{splitReplies(f, 2*f.H+53*ms-10*ms, 2*f.H+53*ms+120*ms), d})
+		f3 := scnFailoverDel("failover-del3-K1", K1, "A", "B", "C")
+		items = append(items, PlanItem{splitReplies(f3, 2*f3.H+53*ms-10*ms, 2*f3.H+53*ms+120*ms), d})
+	}
 	// decorated variants: the application's callbacks take time; every instance runs a
 	// health checker whose checks take 50 ms and succeed; takeover enabled at equal priority
 	items = append(items,
@@ -151,6 +159,8 @@ func generalPlan(tier string, faults bool) []PlanItem {
 			PlanItem{slowApp(scnRestart("restart/stop-K1", K1, Item{Do: "stop"})), d},
 			PlanItem{slowApp(scnFailoverTamper("failover-then-outside-delete-K1", K1, "delete")), d},
 			PlanItem{healthLate(scnPreempt("preempt-lowfirst-K1", K1, []InstSpec{{ID: "A", Priority: 1, Takeover: true}, {ID: "B", Priority: 2, Takeover: true}}, []string{"A", "B"})), d},
+			PlanItem{splitReplies(scnPreempt("preempt-lowfirst-K1", K1, []InstSpec{{ID: "A", Priority: 1, Takeover: true}, {ID: "B", Priority: 2, Takeover: true}}, []string{"A", "B"}), 0, 450*ms), d},
+			PlanItem{splitReplies(scnPrio("preempt-chain-123-K1", []prioOpt{{1, false}, {2, true}, {3, true}}, []string{"A", "B", "C"}, false), 0, 450*ms), d},
 			PlanItem{scnPreemptStop("preempt-then-stopdel-K1", K1), d},
 			PlanItem{scnPreemptDemotedStop("preempt-demoted-then-stopdel-K1-dropall", K1), d},
 			PlanItem{scnHealthWindowTakeover("takeover-inside-health-check-K1", K1), d},
@@ -428,5 +438,15 @@ func longDemote(s *Scenario) *Scenario {
 		s.Insts[i].DemoteDur = s.TTL + 700*ms
 	}
 	s.Horizon += s.TTL + 700*ms + 1500*ms
+	return s
+}
+
+// splitReplies: replies may arrive later than the store applied the operation (apply: and
+// rdelay: deviations), with deviations restricted to [from, until].
+func splitReplies(s *Scenario, from, until time.Duration) *Scenario {
+	s.Name += "/split-replies"
+	s.SplitApply = true
+	s.RandMenu = nil
+	s.DevFrom, s.DevUntil = from, until
 	return s
 }
